@@ -366,3 +366,33 @@ def add_dict_values(reg):
                 ax.append(z3.Length(dv(K, m, k)) == z3.If(k <= 0, 0, k))
             return ax
     reg.specfuns['dvals'] = DVals()
+
+
+def add_split_all(reg):
+    """s.split(sep) without maxsplit: uninterpreted sequence splitall(s, sep) with sound facts
+    (A-STR): never empty; one piece iff sep absent; two pieces iff exactly one occurrence; the last
+    piece is the text after the last separator and join(sep, pieces[:-1]) the text before it."""
+    from pyvc.vals import seq_slice
+    sp_f = SpecFun('splitall', ['bytes', 'bytes'], ('list', 'bytes'))
+    reg.specfuns['splitall'] = sp_f
+    jn = reg.specfuns.get('join') or SpecFun('join', ['bytes', ('list', 'bytes')], 'bytes')
+    reg.specfuns['join'] = jn
+
+    def split_all(ex, st, args, kwargs, fr):
+        o, sep = args
+        sp = sp_f.decl(o.t, sep.t)
+        L = z3.Length(sp)
+        has = z3.Contains(o.t, sep.t)
+        st.assume(L >= 1)
+        st.assume(z3.Implies(z3.Not(has), z3.And(L == 1, sp[0] == o.t)))
+        st.assume(z3.Implies(has, L >= 2))
+        pre = z3.String(fresh_name('split.pre'))
+        last = z3.String(fresh_name('split.last'))
+        st.assume(z3.Implies(has, z3.And(o.t == z3.Concat(pre, sep.t, last), z3.Not(z3.Contains(last, sep.t)),
+                                         sp[L - 1] == last,
+                                         jn.decl(sep.t, seq_slice(sp, None, z3.IntVal(-1))) == pre,
+                                         z3.Implies(z3.Not(z3.Contains(pre, sep.t)), z3.And(L == 2, sp[0] == pre)),
+                                         z3.Implies(z3.Contains(pre, sep.t), L >= 3))))
+        lst = st.alloc(HList(o.kind if o.kind != 'mv' else 'bytes', sp))
+        return ex.val(lst, st)
+    reg.externs['split_all'] = split_all
